@@ -204,6 +204,25 @@ def correspond(ctx, scale):
             dist['lfq_samples'] += 1
             cases.append(f'(if Qeq_bool (k_lfq_quantize Q_ops {qlit(x)} {qlit(scale_)}) {qlit(o)} then 0 else 1)%nat')
             lmeta.append(dict(x=x, scale=scale_, out=o))
+        # training mode and every straight-through activation: the FORWARD VALUE is still +-scale (the activation only shapes the gradient),
+        # equal to the evaluation-mode value up to the rounding of x + (q - x)
+        from torch import nn
+        for act_name, act in (('identity', None), ('tanh', nn.Tanh()), ('sigmoid', nn.Sigmoid()), ('relu', nn.ReLU())):
+            for sph in (False, True):
+                dd = 2
+                qa = LFQ(codebook_size=2 ** dd, dim=dd, codebook_scale=scale_, spherical=sph, **({'straight_through_activation': act} if act is not None else {}))
+                xa = torch.tensor([core.f32(rng.gauss(0, 1.5)) for _ in range(2 * 5 * dd)]).reshape(2, 5, dd)
+                xa[0, 0, 0] = 0.0
+                with torch.no_grad():
+                    qa.eval()
+                    oe = qa(xa).quantized
+                    qa.train()
+                    ot = qa(xa).quantized
+                dist['lfq_train_activation_cases'] = dist.get('lfq_train_activation_cases', 0) + 1
+                ev += 1
+                if not torch.allclose(ot, oe, atol=2e-6, rtol=1e-6):
+                    failures.append({'key': f'lfq:train-value:{act_name}', 'what': f'LFQ(scale={scale_}, spherical={sph}, straight_through_activation={act_name}): the training-mode output differs from the evaluation-mode '
+                                     f'+-scale value by {(ot - oe).abs().max().item():g}', 'case': dict(scale=scale_, spherical=sph, activation=act_name)})
         # spherical: the same sign pattern, scaled to the sphere
         d = 3
         qs = LFQ(codebook_size=2 ** d, dim=d, codebook_scale=scale_, spherical=True)
